@@ -143,7 +143,7 @@ def random_sh(rng, kind, nn, nops):
 def check(ctx):
     drv = ctx.cxx("drv_lists", ["drv_lists.cpp"] + REPO_SRC)
     drvs = ctx.cxx("drv_shlist", ["drv_shlist.cpp"])
-    r = ctx.tlc("Lists", "ListsMCthorough.cfg" if ctx.thorough else "ListsMC.cfg", workers=16, timeout=1500)
+    r = ctx.tlc("Lists", "ListsMCthorough.cfg" if ctx.thorough else "ListsMC.cfg", workers=16, timeout=1500, coverage=not ctx.thorough)
     if not r.ok:
         ctx.model_violation(r, "Lists invariants")
     if ctx.thorough:   # beyond the exhaustive bound: random behaviours with 3 heads x 6 nodes
